@@ -480,20 +480,24 @@ def level_key(cl):
 def snapshot(lk):
     s = lk._settings_obj
     cms = s.core_model_settings
-    comps, mu, trained, lother = [], [], [], []
+    comps, mu, trained, lother = [], {}, {}, {}
     for cc in cms.comparisons:
         comps.append([cc.output_column_name, [cl.sql_condition for cl in cc.comparison_levels]])
-        for cl in cc.comparison_levels:
-            mu.append([cc.output_column_name, cl.sql_condition] + level_key(cl))
-            trained.append([list(map(str, getattr(cl, "_trained_m_probabilities", []))),
-                            list(map(str, getattr(cl, "_trained_u_probabilities", [])))])
+        for i, cl in enumerate(cc.comparison_levels):
+            key = f"{cc.output_column_name}|{i}"
+            mu[key] = level_key(cl)
+            trained[key] = [list(map(str, getattr(cl, "_trained_m_probabilities", []))),
+                            list(map(str, getattr(cl, "_trained_u_probabilities", [])))]
             tfc = getattr(cl, "_tf_adjustment_column", None)
-            lother.append([getattr(tfc, "name", tfc) if tfc is not None else None,
+            lother[key] = [getattr(tfc, "name", tfc) if tfc is not None else None,
                            getattr(cl, "_tf_adjustment_weight", None), getattr(cl, "_fix_m_probability", None),
-                           getattr(cl, "_fix_u_probability", None), getattr(cl, "_label_for_charts", None)])
-    brs = [[type(b).__name__, b.blocking_rule_sql, [p.blocking_rule_sql for p in b.preceding_rules]]
+                           getattr(cl, "_fix_u_probability", None), getattr(cl, "_label_for_charts", None)]
+    brs = [[type(b).__name__, b.blocking_rule_sql, [p.blocking_rule_sql for p in getattr(b, "preceding_rules", [])]]
            for b in s._blocking_rules_to_generate_predictions]
-    model = lk.misc.save_model_to_json()
+    try:
+        model = lk.misc.save_model_to_json()
+    except Exception as e:          # noqa: BLE001  - a corrupted settings object is a difference, not a crash
+        model = {"_save_model_to_json_raises": f"{type(e).__name__}: {str(e)[:200]}"}
     other = {k: v for k, v in model.items() if k not in (
         "comparisons", "probability_two_random_records_match", "blocking_rules_to_generate_predictions", "link_type",
         "retain_matching_columns", "retain_intermediate_calculation_columns")}
@@ -509,8 +513,20 @@ def snapshot(lk):
     }
 
 
+LEVEL_FIELDS = ("FLevelMU", "FLevelTrained", "FLevelOther")
+
+
 def snap_diff(a, b):
-    changed = [f for f in FIELDS if json.dumps(a[f], sort_keys=True, default=str) != json.dumps(b[f], sort_keys=True, default=str)]
+    def js(x):
+        return json.dumps(x, sort_keys=True, default=str)
+    changed = []
+    for f in FIELDS:
+        if f in LEVEL_FIELDS:
+            # per level of the comparisons present on both sides (a removed comparison is FComparisons)
+            if any(js(a[f][k]) != js(b[f][k]) for k in a[f] if k in b[f]):
+                changed.append(f)
+        elif js(a[f]) != js(b[f]):
+            changed.append(f)
     if a["_json"] != b["_json"] and not [f for f in changed if f != "FCoreModel"]:
         changed.append("FOther")
     return changed
